@@ -31,8 +31,16 @@ def load_levels():
 
 def run_stage(cmd, out, timeout, log):
     t0 = time.time()
+    workdir = os.path.join(ROOT, ".cache", "work")     # the library appends to ./log_sg in its working directory: keep that out of /verif's tree
+    os.makedirs(workdir, exist_ok=True)
     try:
-        p = subprocess.run(cmd, stdout=subprocess.PIPE, stderr=subprocess.STDOUT, timeout=timeout, cwd=ROOT,
+        lg = os.path.join(workdir, "log_sg")
+        if os.path.exists(lg) and os.path.getsize(lg) > 20_000_000:
+            os.remove(lg)
+    except OSError:
+        pass
+    try:
+        p = subprocess.run(cmd, stdout=subprocess.PIPE, stderr=subprocess.STDOUT, timeout=timeout, cwd=workdir,
                            env=dict(os.environ, PYTHONPATH=ROOT, PYTHONDONTWRITEBYTECODE="1", MPLBACKEND="Agg",
                                     OMP_NUM_THREADS=os.environ.get("OMP_NUM_THREADS", "2")))
         txt = p.stdout.decode(errors="replace")
@@ -63,8 +71,10 @@ def main():
         tier = "quick"
     seed = int(os.environ.get("VERIF_SEED", "0") or 0)
     t0 = time.time()
-    cache = os.path.join(ROOT, ".cache")
+    cache = os.path.join(ROOT, ".cache", "run_%d" % os.getpid())      # per-process scratch: concurrent checks of one property must not share files
     os.makedirs(cache, exist_ok=True)
+    import atexit, shutil
+    atexit.register(lambda: shutil.rmtree(cache, ignore_errors=True))
     os.makedirs(os.path.join(ROOT, "evidence"), exist_ok=True)
     rdir = os.path.join(ROOT, "replays", prop)
     os.makedirs(rdir, exist_ok=True)
@@ -106,7 +116,7 @@ def main():
     if "P" in stages:
         rc, P, txt, dt = stages["P"]
         if P is None:
-            errors.append("P stage produced no result (rc=%s); see .cache/%s.P.log\n%s" % (rc, prop, txt[-1500:]))
+            errors.append("P stage produced no result (rc=%s)\n%s" % (rc, txt[-1500:]))
         else:
             errors.extend(P.get("errors", []))
             assumptions.extend(P.get("assumptions", []))
@@ -137,7 +147,7 @@ def main():
     if "B" in stages:
         rc, B, txt, dt = stages["B"]
         if B is None:
-            errors.append("B stage produced no result (rc=%s); see .cache/%s.B.log\n%s" % (rc, prop, txt[-1500:]))
+            errors.append("B stage produced no result (rc=%s)\n%s" % (rc, txt[-1500:]))
         else:
             errors.extend(B.get("errors", []))
             for v in B.get("violations", []):
